@@ -2,6 +2,7 @@ package c15
 
 import (
 	"context"
+	"encoding/hex"
 	"fmt"
 	"os"
 	"path/filepath"
@@ -11,131 +12,233 @@ import (
 	rcmd "github.com/google/gce-tcb-verifier/cmd"
 	"github.com/google/gce-tcb-verifier/endorse"
 	"github.com/google/gce-tcb-verifier/keys"
+	epb "github.com/google/gce-tcb-verifier/proto/endorsement"
+	"github.com/google/gce-tcb-verifier/storage/local"
 	"pgregory.net/rapid"
 
 	"verif/internal/ev"
 )
 
+// cliShape is what the command line adds to a scenario: optional flags that do not change what is
+// measured, and the spelling of the boolean flags.
+type cliShape struct {
+	KeysInGlobal  bool
+	Quiet         bool
+	Timestamp     bool
+	ImageID       bool
+	FamilyID      bool
+	Commit        bool
+	ReleaseBranch bool
+	Retries       int // -1: flag absent
+	DryForm       string
+	OnlyForm      string
+}
+
+func genCLIShape(t *rapid.T, dry, only bool) cliShape {
+	x := cliShape{
+		KeysInGlobal:  rapid.Bool().Draw(t, "keysInGlobal"),
+		Quiet:         rapid.IntRange(0, 3).Draw(t, "quiet") != 0,
+		Timestamp:     rapid.IntRange(0, 3).Draw(t, "timestamp") != 0,
+		ImageID:       rapid.Bool().Draw(t, "imageID"),
+		FamilyID:      rapid.Bool().Draw(t, "familyID"),
+		Commit:        rapid.Bool().Draw(t, "commit"),
+		ReleaseBranch: rapid.Bool().Draw(t, "releaseBranch"),
+		Retries:       rapid.IntRange(-1, 2).Draw(t, "retries"),
+	}
+	if dry {
+		x.DryForm = rapid.SampledFrom([]string{"--dry_run", "--dry_run=true"}).Draw(t, "dryForm")
+	} else {
+		x.DryForm = rapid.SampledFrom([]string{"", "--dry_run=false"}).Draw(t, "dryForm")
+	}
+	if only {
+		x.OnlyForm = rapid.SampledFrom([]string{"--measurement_only", "--measurement_only=true"}).Draw(t, "onlyForm")
+	} else {
+		x.OnlyForm = rapid.SampledFrom([]string{"", "--measurement_only=false"}).Draw(t, "onlyForm")
+	}
+	return x
+}
+
+// cliArgs renders the request as `endorse` arguments. The reference run drops the two mode flags and
+// forces --overwrite.
+func cliArgs(s scenario, x cliShape, dir string, reference bool) []string {
+	in := filepath.Join(dir, "in")
+	args := []string{"endorse", "--uefi", filepath.Join(in, s.ImageName), "--out_dir", "out", "--clspec=5"}
+	if x.Quiet {
+		args = append(args, "--quiet")
+	}
+	if x.Timestamp {
+		args = append(args, "--timestamp", "2025-03-03T04:05:06Z")
+	}
+	if s.Sev {
+		args = append(args, "--add_snp", fmt.Sprintf("--snp_launch_vmsas=%d", s.Vmsas))
+		if s.Genoa {
+			args = append(args, "--snp_product=Genoa")
+		}
+		if x.ImageID {
+			args = append(args, "--snp_image_id="+fixedImageID)
+		}
+		if x.FamilyID {
+			args = append(args, "--snp_family_id=99999999-8888-7777-6666-555555555555")
+		}
+		if s.Svsm {
+			args = append(args, "--svsm_snp_measurement_path="+filepath.Join(in, "svsm.meas"))
+		}
+	}
+	if s.Tdx {
+		args = append(args, "--add_tdx")
+		if len(s.Shapes) > 0 {
+			args = append(args, "--tdx_machine_shapes="+strings.Join(s.Shapes, ","))
+		}
+		if s.Early {
+			args = append(args, "--tdx_include_early_accept")
+		}
+	}
+	if len(s.SvsmImage) > 0 {
+		args = append(args, "--svsm_path="+filepath.Join(in, "svsm.igvm"))
+	}
+	if x.Commit {
+		args = append(args, "--commit="+strings.Repeat("ab", 20))
+	}
+	if x.ReleaseBranch {
+		args = append(args, "--release_branch=releases/7")
+	}
+	if x.Retries >= 0 {
+		args = append(args, fmt.Sprintf("--commit_retries=%d", x.Retries))
+	}
+	if !reference {
+		if x.DryForm != "" {
+			args = append(args, x.DryForm)
+		}
+		if x.OnlyForm != "" {
+			args = append(args, x.OnlyForm)
+		}
+	}
+	if s.SnapshotDir != "" {
+		args = append(args, "--snapshot_dir="+s.SnapshotDir)
+	}
+	if s.Candidate != "" {
+		args = append(args, "--candidate_name="+s.Candidate)
+	}
+	if s.Overwrite || reference {
+		args = append(args, "--overwrite")
+	}
+	return args
+}
+
+// runCLI executes the endorse command of a fresh application over the scenario.
+func runCLI(s scenario, x cliShape, dir string, dry, only, reference bool) (observed, []string) {
+	c := &calls{}
+	vcss := s.makeVCSs(c, dir+"/root")
+	signer := &recSigner{c: c, probe: dry && !only && !reference}
+	// Keys come from the application's Global component (it runs before the endorse command's own
+	// initialisation, as the AppComponents documentation intends) or from the Endorse component.
+	keysComp := &rcmd.PartialComponent{FInitContext: func(ctx context.Context) (context.Context, error) {
+		kc, err := keys.FromContext(ctx)
+		if err != nil {
+			return nil, err
+		}
+		kc.CA, kc.Signer, kc.Manager = &recCA{c}, signer, &recManager{c}
+		return ctx, nil
+	}}
+	var runCtx context.Context
+	vcsComp := &rcmd.PartialComponent{FInitContext: func(ctx context.Context) (context.Context, error) {
+		ec, err := endorse.FromContext(ctx)
+		if err != nil {
+			return nil, err
+		}
+		s.install(ec, vcss)
+		runCtx = ctx
+		return ctx, nil
+	}}
+	components := &rcmd.AppComponents{Endorse: rcmd.Compose(keysComp, vcsComp), SignatureRandom: zeroReader{}, Storage: &local.StorageClient{}}
+	if x.KeysInGlobal {
+		components = &rcmd.AppComponents{Global: keysComp, Endorse: vcsComp, SignatureRandom: zeroReader{}, Storage: &local.StorageClient{}}
+	}
+	args := cliArgs(s, x, dir, reference)
+	app := rcmd.MakeApp(context.Background(), components)
+	app.SetArgs(args)
+	app.SilenceUsage, app.SilenceErrors = true, true
+	res := observed{calls: c, signer: signer, vcss: vcss}
+	before := fsSnapshot(dir)
+	res.stdout = captureStdout(func() {
+		defer func() {
+			if r := recover(); r != nil {
+				res.pan = r
+			}
+		}()
+		res.err = app.Execute()
+	})
+	res.fsDiff = fsDiff(before, fsSnapshot(dir))
+	if signer.probe && res.pan == nil && len(signer.atSign) == 0 && runCtx != nil {
+		res.afterRun, res.afterRunErr = goldenOf(runCtx)
+	}
+	return res, args
+}
+
+const cliRule = "the `endorse` command (cmd.MakeApp with local storage, fresh tree per run) over a generated firmware file, with the request spelled as flags: --add_snp/--add_tdx, --snp_launch_vmsas, --snp_product, --tdx_machine_shapes, --tdx_include_early_accept, --svsm_snp_measurement_path, --svsm_path, --snapshot_dir, --candidate_name, --overwrite, and optionally --snp_image_id, --snp_family_id, --commit, --release_branch, --commit_retries, --timestamp, --quiet; --dry_run / --measurement_only in bare, =true and (when off) absent or =false forms; destinations, pre-existing endorsements, doubles (installed through the Global or the Endorse component), scratch directory and oracle exactly as in flags-vs-real-run, the reference being the same command line without the two mode flags and with --overwrite. Non-trivial and distinct as there"
+
 // The same clauses through the `endorse` command: flag wiring and whatever the command does
 // around endorse.VirtualFirmware are part of the run.
 func TestNoSideEffectsThroughCLI(t *testing.T) {
 	const name = "cli/flags"
-	ev.Rule(name, "the `endorse` command (cmd.MakeApp, fresh tree per run) over a generated firmware file with --dry_run and/or --measurement_only (explicit =true/=false forms included) x technology x --snp_launch_vmsas x --snapshot_dir x --candidate_name x --overwrite, with recording doubles for CertificateAuthority, Signer, KeyManager, VersionControl and ChangeOps installed through a command component; oracle: dry-run => no workspace/write/mode change/commit; measurement-only => additionally no call on CA, signer or key manager, and the printed lines equal those of the library-level measurement-only run; non-trivial = always; distinct = (flags, request shape)")
+	ev.Rule(name, cliRule)
 	checks(ev.Scale(250, 2500))
 	rapid.Check(t, func(t *rapid.T) {
 		s := genScenario(t)
-		s.Shapes, s.Early, s.Svsm, s.PreExisting = nil, false, false, false
-		mode := rapid.SampledFrom([]string{"dry-run", "measurement-only", "both"}).Draw(t, "mode")
+		s.ImageName = "fw.fd"
+		mode := rapid.SampledFrom([]string{"dry-run", "dry-run", "measurement-only", "both"}).Draw(t, "mode")
 		dry, only := mode != "measurement-only", mode != "dry-run"
-		dir, err := os.MkdirTemp("", "c15-cli-")
-		if err != nil {
-			t.Fatalf("harness: %v", err)
-		}
-		defer os.RemoveAll(dir)
-		fw := filepath.Join(dir, "fw.fd")
-		if err := os.WriteFile(fw, s.Image, 0o644); err != nil {
-			t.Fatalf("harness: %v", err)
-		}
-		c := &calls{}
-		vcs := &recVCS{c: c, files: map[string][]byte{}}
-		signer := &recSigner{c: c}
-		// Keys come from the application's Global component (it runs before the endorse command's own
-		// initialisation, as the AppComponents documentation intends) or from the Endorse component.
-		keysFirst := rapid.Bool().Draw(t, "keysInGlobal")
-		keysComp := &rcmd.PartialComponent{FInitContext: func(ctx context.Context) (context.Context, error) {
-			kc, err := keys.FromContext(ctx)
-			if err != nil {
-				return nil, err
+		x := genCLIShape(t, dry, only)
+		var ref, got observed
+		var args []string
+		var setupErr error
+		if err := inScratch(func(dir string) {
+			in := filepath.Join(dir, "in")
+			files := map[string][]byte{s.ImageName: s.Image, "svsm.meas": []byte(hex.EncodeToString(svsmMeasurement) + "\n")}
+			if len(s.SvsmImage) > 0 {
+				files["svsm.igvm"] = s.SvsmImage
 			}
-			kc.CA, kc.Signer, kc.Manager = &recCA{c}, signer, &recManager{c}
-			return ctx, nil
-		}}
-		vcsComp := &rcmd.PartialComponent{FInitContext: func(ctx context.Context) (context.Context, error) {
-			ec, err := endorse.FromContext(ctx)
-			if err != nil {
-				return nil, err
-			}
-			ec.VCS = vcs
-			return ctx, nil
-		}}
-		components := &rcmd.AppComponents{Endorse: rcmd.Compose(keysComp, vcsComp), SignatureRandom: zeroReader{}}
-		if keysFirst {
-			components = &rcmd.AppComponents{Global: keysComp, Endorse: vcsComp, SignatureRandom: zeroReader{}}
-		}
-		args := []string{"endorse", "--quiet", "--uefi", fw, "--out_dir", "out", "--timestamp", "2025-03-03T04:05:06Z", "--clspec=5"}
-		if s.Sev {
-			args = append(args, "--add_snp", fmt.Sprintf("--snp_launch_vmsas=%d", s.Vmsas))
-			if s.Genoa {
-				args = append(args, "--snp_product=Genoa")
-			}
-		}
-		if s.Tdx {
-			args = append(args, "--add_tdx")
-		}
-		if dry {
-			args = append(args, rapid.SampledFrom([]string{"--dry_run", "--dry_run=true"}).Draw(t, "dryForm"))
-		} else if rapid.Bool().Draw(t, "explicitNoDry") {
-			args = append(args, "--dry_run=false")
-		}
-		if only {
-			args = append(args, rapid.SampledFrom([]string{"--measurement_only", "--measurement_only=true"}).Draw(t, "onlyForm"))
-		}
-		if s.SnapshotDir != "" {
-			args = append(args, "--snapshot_dir="+s.SnapshotDir)
-		}
-		if s.Candidate != "" {
-			args = append(args, "--candidate_name="+s.Candidate)
-		}
-		if s.Overwrite {
-			args = append(args, "--overwrite")
-		}
-		app := rcmd.MakeApp(context.Background(), components)
-		app.SetArgs(args)
-		app.SilenceUsage, app.SilenceErrors = true, true
-		var runErr error
-		var pan any
-		out := captureStdout(func() {
-			defer func() {
-				if r := recover(); r != nil {
-					pan = r
-				}
-			}()
-			runErr = app.Execute()
-		})
-		desc := fmt.Sprintf("%s %v", mode, args[3:])
-		if pan != nil {
-			key := "C15/dry-run-panic"
-			if only {
-				key = "C15/measurement-only-panic"
-			}
-			ev.Violation(t, key, "%s: endorse panicked: %v", desc, pan)
-			return
-		}
-		if runErr != nil {
-			ev.Violation(t, "C15/flagged-run-failed", "%s: endorse returned %v", desc, runErr)
-			return
-		}
-		for _, p := range []string{"vcs.GetChangeOps", "ops.Write", "ops.Chmod", "ops.TryCommit"} {
-			if n := c.count(p); n != 0 {
-				ev.Violation(t, "C15/side-effect/"+p, "%s: %d calls to %s: %v", desc, n, p, c.log)
-				return
-			}
-		}
-		if only {
-			for _, p := range []string{"ca.", "signer.", "manager."} {
-				if n := c.count(p); n != 0 {
-					ev.Violation(t, "C15/measurement-only-touches-keys", "%s: %d calls to %s*: %v", desc, n, p, c.log)
+			for n, b := range files {
+				if err := os.WriteFile(filepath.Join(in, n), b, 0o644); err != nil {
+					setupErr = err
 					return
 				}
 			}
-			lib := run(s, dry, true)
-			if strings.Join(reportLines(out), "\n") != strings.Join(reportLines(lib.stdout), "\n") {
-				ev.Violation(t, "C15/measurement-only-report-differs", "%s: the command printed %v, the library run %v", desc, reportLines(out), reportLines(lib.stdout))
-				return
+			ref, _ = runCLI(s, x, dir, false, false, true)
+			got, args = runCLI(s, x, dir, dry, only, false)
+			for i := range args {
+				args[i] = strings.ReplaceAll(args[i], dir, "$D")
 			}
+		}); err != nil || setupErr != nil {
+			t.Fatalf("harness: scratch directory: %v %v", err, setupErr)
 		}
-		ev.Case(name, true, desc, mode+"/"+map[bool]string{true: "snapshot", false: "manifest"}[s.SnapshotDir != ""], func() any {
-			return map[string]any{"mode": mode, "args": args[3:], "calls": c.log}
+		desc := fmt.Sprintf("%s vcs=%s preexisting=%v keysInGlobal=%v %v", mode, s.Vcs, s.PreExisting, x.KeysInGlobal, args[1:])
+		class := mode + "/" + map[bool]string{true: "snapshot", false: "manifest"}[s.SnapshotDir != ""]
+		var golden *epb.VMGoldenMeasurement
+		if ref.pan == nil && ref.err == nil {
+			golden, ref.err = signedGolden(ref, s)
+		}
+		if ref.pan != nil || ref.err != nil {
+			noteFirst(name+"/reference", "%s: inconclusive: the reference run did not commit a document (panic %v, error %v)", desc, ref.pan, ref.err)
+			ev.Class(name, "inconclusive/no-reference")
+			ev.Case(name, false, desc, class, nil)
+			return
+		}
+		ok, decided := judge(t, name, desc, s, dry, only, golden, ref.signer.digests, got)
+		if !ok {
+			return
+		}
+		labels(name, s, mode)
+		ev.Class(name, decided)
+		if !x.Quiet {
+			ev.Class(name, "cli/not-quiet")
+		}
+		if !x.Timestamp {
+			ev.Class(name, "cli/no-timestamp")
+		}
+		nontrivial := decided != "dry-run/refused-like-the-real-run" && decided != "report/nothing-to-show" && !strings.HasPrefix(decided, "inconclusive/")
+		ev.Case(name, nontrivial, desc, class, func() any {
+			return map[string]any{"mode": mode, "args": args[1:], "decided": decided, "calls": got.calls.log}
 		})
 	})
 }
